@@ -372,6 +372,47 @@ def describe(script, maxbytes=70):
 # ---------------------------------------------------------------------------
 # histories of the model -> scripts; predictions
 
+def dump_histories(cfg, workers=4, timeout=1800):
+    """Exhaustive TLC run with -dump on a HIST cfg -> (result, [(dv, hist, out)]).
+    Like tlc.dump_states, but reads only the three variables needed, with Python's
+    own parser (the values are nested tuples of strings, numbers and booleans):
+    the dumps of the thorough tier have 10^5 states."""
+    import re
+    import shutil
+    wd = tlc.workdir('dump')
+    dump = os.path.join(wd, 'states')
+    try:
+        res = tlc.run_tlc(SPEC, 'HttpConn', cfg, workers=workers, timeout=timeout, extra=['-dump', dump])
+        if res.violated:
+            raise tlc.MachineryError('model HttpConn (%s) violates %s:\n%s' % (cfg, res.violated, res.out[-2000:]))
+        with open(dump + '.dump') as f:
+            text = f.read()
+    finally:
+        shutil.rmtree(wd, ignore_errors=True)
+    var = re.compile(r'^/\\ (\w+) = ', re.M)
+    env = {'__builtins__': {}, 'TRUE': True, 'FALSE': False}
+    out = []
+    for block in re.split(r'^State \d+:.*$', text, flags=re.M)[1:]:
+        ms = list(var.finditer(block))
+        vals = {}
+        for i, m in enumerate(ms):
+            if m.group(1) not in ('dv', 'hist', 'out'):
+                continue
+            v = block[m.end():ms[i + 1].start() if i + 1 < len(ms) else len(block)]
+            v = ' '.join(v.split())
+            if m.group(1) == 'dv':
+                vals['dv'] = frozenset(re.findall(r'"(\w+)"', v))
+            else:
+                v = v.replace('<<>>', '()').replace('<<', '(').replace('>>', ',)')
+                vals[m.group(1)] = eval(v, env)        # text written by TLC: tuples of literals only
+        if len(vals) != 3:
+            raise tlc.MachineryError('cannot read a state of the dump for %s: %s' % (cfg, block[:300]))
+        out.append((vals['dv'], vals['hist'], vals['out']))
+    if len(out) != res.distinct:
+        raise tlc.MachineryError('dump for %s has %d states, TLC reports %d' % (cfg, len(out), res.distinct))
+    return res, out
+
+
 def hist_key(h):
     return tuple((x[0], x[1], x[2]) for x in h)
 
@@ -788,9 +829,11 @@ def run(tier, replay=None):
         'mc': lambda: tlc.model_check(SPEC, 'HttpConn', 'MC_HttpConn%s.cfg' % suffix, coverage=True, workers=4),
         'gen:keepbuf': lambda: tlc.run_tlc(SPEC, 'HttpConn', 'MC_HttpConn_keepbuf.cfg', workers=1),
         'gen:echo505': lambda: tlc.run_tlc(SPEC, 'HttpConn', 'MC_HttpConn_echo505.cfg', workers=1),
-        'hist:one': lambda: tlc.dump_states(SPEC, 'HttpConn', 'HIST_HttpConn_one%s.cfg' % suffix, workers=4),
-        'hist:two': lambda: tlc.dump_states(SPEC, 'HttpConn', 'HIST_HttpConn_two%s.cfg' % suffix, workers=4),
+        'hist:one': lambda: dump_histories('HIST_HttpConn_one%s.cfg' % suffix),
+        'hist:two': lambda: dump_histories('HIST_HttpConn_two%s.cfg' % suffix),
     }
+    if not quick:
+        jobs['hist:twob'] = lambda: dump_histories('HIST_HttpConn_twob_thorough.cfg')
     with ThreadPoolExecutor(max_workers=len(jobs)) as ex:
         futs = {k: ex.submit(f) for k, f in jobs.items()}
         results = {k: f.result() for k, f in futs.items()}
@@ -817,14 +860,13 @@ def run(tier, replay=None):
     pred = {v: {} for v in VARIANTS.values()}
     hists = {}
     dump_states = 0
-    for key in ('hist:one', 'hist:two'):
+    for key in sorted(k for k in results if k.startswith('hist:')):
         res, states = results[key]
         dump_states += res.distinct
-        for st in states:
-            hk = hist_key(st['hist'])
-            v = VARIANTS[frozenset(st['dv'])]
-            pred[v].setdefault(hk, set()).add(norm_model(st['out']))
-            hists[hk] = st['hist']
+        for dv, hist, out in states:
+            hk = hist_key(hist)
+            pred[VARIANTS[dv]].setdefault(hk, set()).add(norm_model(out))
+            hists[hk] = hk
     prefixes = set()
     for hk in hists:
         for i in range(len(hk)):
@@ -843,9 +885,9 @@ def run(tier, replay=None):
 
     # 2. scripts
     scripts, origin = [], []
-    reps = 1 if quick else 3
     for idx, hk in enumerate(maximal):
-        for rep in range(reps):
+        two = any(x[1] > 1 for x in hk)
+        for rep in range(1 if quick else (2 if two else 3)):
             r = random.Random('%d/%d/%d' % (ctx.seed, idx, rep))
             scripts.append(realise_history(hk, r, rep))
             origin.append('tlc-history')
